@@ -24,6 +24,7 @@ def run(ctx):
     R.rule_comment_indentation(ctx)
     R.rule_transparent_groups(ctx)
     R.rule_intention_policy(ctx)
+    R.rule_text_block_line_start(ctx)
     ctx.rule("intention-table", "which source line of which entity is compared at each kind of layout boundary, and how two lines become Joined / "
                                 "Broken / BlankLine (rules/golden_intent.json): the printer's own output must read back as the same intention")
     golden.check(ctx, "intention-table", "golden_intent.json")
